@@ -198,7 +198,7 @@ def run(O, P):
     if pro_jobs:
         inp = "\n".join(json.dumps({k: j[k] for k in ("id", "prologue", "dsts")}) for j in pro_jobs) + "\n"
         p = subprocess.run(["node", os.path.join(vlib.ROOT, "tools", "prologue_check.js")], input=inp.encode(), stdout=subprocess.PIPE, stderr=subprocess.PIPE, timeout=600)
-        res = [json.loads(l) for l in p.stdout.decode().splitlines() if l.strip()]
+        res = [json.loads(l) for l in p.stdout.decode().split("\n") if l.strip()]
         if len(res) != len(pro_jobs):
             O.break_("prologue runner failed: " + p.stderr.decode()[-500:], {"correspondence": "prologue-execution"})
         for j, rr in zip(pro_jobs, res):
